@@ -3,6 +3,7 @@ C04 — Literal values survive quote and number normalisation.
 Property theorems and non-vacuity examples only; helper lemmas are in Lemmas/StrLit.lean.
 -/
 import StyluaModel.Lemmas.StrLit
+import StyluaModel.Lemmas.Long
 
 namespace StyluaModel.C04
 open StyluaModel.StrLit StyluaModel.StrVal
@@ -44,5 +45,26 @@ theorem C04_num_dot (t : List Char) : rewriteNumber ('.' :: t) = '0' :: '.' :: t
 /-! ## non-vacuity -/
 example : decode52 "a\\'\"\\x41\\z  b".toList ≠ none := by decide
 example : lexOK false false '"' "it\\'s \\\"q\\\" \\65".toList = true := by decide
+
+/-! ## long-bracket strings -/
+
+/-- **a long-bracket string denotes the same bytes after formatting**, under either `line_endings`
+value: `format_token` turns every CRLF into LF and then every LF into the configured ending; a Lua
+reader skips a first line break and reads every line-break sequence (`\n`, `\r`, `\r\n`, `\n\r`) as
+`\n`. Holds for bodies of any length in which every carriage return is followed by a line feed. -/
+theorem C04_long (eol : List Char) (he : eol = ['\n'] ∨ eol = ['\r', '\n']) (b : List Char)
+    (h : TriviaLemmas.noLoneCR b = true) : decodeLong (rewriteLong eol b) = decodeLong b :=
+  LongLemmas.long_value eol he b h
+
+/-- the hypothesis is needed: a lone carriage return next to another line break belongs to one
+`\n\r` break (or is a break of its own in front of `\r\n`) for the reader; the two-step conversion
+splits the first under Windows endings and merges the second under Unix endings -/
+theorem C04_long_lone_cr_witness :
+    decodeLong (rewriteLong ['\r', '\n'] ['a', '\n', '\r', 'b']) ≠ decodeLong ['a', '\n', '\r', 'b'] ∧
+    decodeLong (rewriteLong ['\n'] ['a', '\r', '\r', '\n', 'b']) ≠ decodeLong ['a', '\r', '\r', '\n', 'b'] := by
+  decide
+
+example : TriviaLemmas.noLoneCR ['\r', '\n', 'x', '\n', '\r', '\n', 'y'] = true ∧
+    rewriteLong ['\r', '\n'] ['\r', '\n', 'x', '\n', '\r', '\n', 'y'] = ['\r', '\n', 'x', '\r', '\n', '\r', '\n', 'y'] := by decide
 
 end StyluaModel.C04
